@@ -21,7 +21,7 @@ var rules = []*Rule{
 	{ID: "R6", Title: "SENTINEL-IDENTITY: compared sentinels arrive unwrapped and alive", Props: []string{"C03", "C04", "C09", "C10", "C12"}, Run: ruleR6},
 	{ID: "R7", Title: "TAXONOMY and GUARDS", Props: []string{"C04", "C03", "C07", "C09", "C10", "C11", "C12", "C14", "C19"}, Run: ruleR7},
 	{ID: "R8", Title: "KEY-EQUALITY: a hash hit is only a candidate", Props: []string{"C09", "C13", "C14", "C11"}, Run: func(p *Prog) []Ob { return append(ruleR8(p), p.collectLoopAscends()...) }},
-	{ID: "R10", Title: "DECODER-VALIDATION: nothing is returned before it is checked", Props: []string{"C14", "C07", "C05", "C11", "C09", "C01"}, Run: func(p *Prog) []Ob {
+	{ID: "R10", Title: "DECODER-VALIDATION: nothing is returned before it is checked", Props: []string{"C14", "C07", "C05", "C11", "C09", "C01", "C17"}, Run: func(p *Prog) []Ob {
 		return append(append(append(ruleR10(p), p.wholeItems()...), p.eofOrigin()...), p.freshMessage()...)
 	}},
 	{ID: "R11", Title: "COPY-LOOP: every record read is accounted for", Props: []string{"C01", "C02", "C05", "C07", "C08", "C11", "C12", "C17"}, Run: func(p *Prog) []Ob {
@@ -42,11 +42,11 @@ var rules = []*Rule{
 	{ID: "R17", Title: "OFFSET-ASSIGNMENT", Props: []string{"C02", "C01"}, Run: func(p *Prog) []Ob {
 		return append(append(ruleR17(p), p.tailSurvivedObligations()...), p.rolloverFromNonEmpty()...)
 	}},
-	{ID: "R5", Title: "INUSE: the unload refcount protocol", Props: []string{"C08"}, Run: ruleR5},
+	{ID: "R5", Title: "INUSE: the unload refcount protocol", Props: []string{"C08", "C19"}, Run: ruleR5},
 	{ID: "R18", Title: "SNAPSHOT-REVALIDATION", Props: []string{"C08", "C12", "C03"}, Run: func(p *Prog) []Ob {
 		return append(append(append(ruleR18(p), p.deleteSerialised()...), p.staleReader()...), p.lostRaceIsNotAnAnswer()...)
 	}},
-	{ID: "R20", Title: "READER-LIFETIME: destructive segment operations exclude readers", Props: []string{"C08", "C03", "C12"}, Run: func(p *Prog) []Ob { return append(ruleR20(p), p.closeBeforeReplace()...) }},
+	{ID: "R20", Title: "READER-LIFETIME: destructive segment operations exclude readers", Props: []string{"C08", "C03", "C12", "C04", "C09", "C10"}, Run: func(p *Prog) []Ob { return append(ruleR20(p), p.closeBeforeReplace()...) }},
 	{ID: "R21", Title: "HEAD-SCAN-BOUND", Props: []string{"C08"}, Run: ruleR21},
 	{ID: "R9", Title: "FORMAT-TABLES: encoder = decoder = documented layout", Props: []string{"C13", "C17", "C11", "C09", "C04", "C01"}, Run: func(p *Prog) []Ob { return append(ruleR9(p), p.headerFlagsExact()...) }},
 	{ID: "R24", Title: "USE-AFTER-ERROR: placeholder results of failed calls never reach a success", Props: []string{"C01", "C02", "C03", "C04", "C06", "C07", "C08", "C09", "C10", "C12", "C13", "C20"}, Run: ruleR24},
